@@ -8,6 +8,8 @@ import DoltVerif.Model.MutableMap
 import DoltVerif.Lemmas.Mutate
 import DoltVerif.Lemmas.Search
 import DoltVerif.Lemmas.TreeWF
+import DoltVerif.Lemmas.BuildWF
+import DoltVerif.Lemmas.Window
 namespace DoltVerif.C11
 open DoltVerif.Prolly DoltVerif.SortedDict
 
@@ -227,6 +229,93 @@ theorem ordinal_refines_leaf {cmp : κ → κ → Ordering} (hc : TotalPreorder 
 
 /-- non-vacuity: numbers under `compare` -/
 example : (⟨0, [(1, "a"), (3, "b"), (7, "c")]⟩ : Tree Nat String).flatten = [(1, "a"), (3, "b"), (7, "c")] := rfl
+
+/-! ### range iteration -/
+
+/-- **a cursor positioned by any monotone key predicate lands on the predicate's boundary** (the
+generalisation of `ordinal_refines` that covers `rangeStartSearchFn` / `rangeStopSearchFn`):
+its ordinal is the number of entries whose key does not yet satisfy the predicate. -/
+theorem seek_ordinal_refines [Inhabited κ] {cmp : κ → κ → Ordering} (hc : TotalPreorder cmp) (t : Tree κ ν)
+    (h : WF cmp t) (hne : t.height = 0 ∨ t.root ≠ []) (p : κ → Bool) (hp : Mono cmp p) :
+    t.seekOrdinal (psearch p) = some (rankP p t.flatten) := by
+  have : t.seekOrdinal (psearch p) = ordViaP p t.height t.root := rfl
+  rw [this, ordViaP_eq_ordAtP]
+  exact ordAtP_refines hc hp t.height t.root h.node h.sorted hne
+
+/-- `compareCursors` agrees with the ordinals of the two cursors, and a non-empty iterator starts
+on an item.  True for two cursors obtained by searches in a well-formed tree (not proved here);
+false for `newCursorAtKey` past the last key against `newCursorPastEnd` — known finding
+`prollymap/iter-key-range/start-past-last-key-open-stop`. -/
+def CursorsConsistent (t : Tree κ ν) (lo hi : List Nat) : Prop :=
+  (cmpPath lo hi ≠ .lt → ∀ a b, pathOrdinal t.height t.root lo = some a → pathOrdinal t.height t.root hi = some b → b ≤ a)
+  ∧ (cmpPath lo hi = .lt → (pathItem t.height t.root lo).isSome = true)
+
+/-- **`iterRange_refines_partial`**: `Map.IterRange(rng)` yields exactly the entries whose key
+`Matches` the range, in order — for every bound kind, including empty and inverted ranges (then
+`[]`) — given that the range's start/stop predicates are monotone along the key order (true for
+lexicographic tuple comparators, C15) and the two cursors are consistent (`CursorsConsistent`). -/
+theorem iterRange_refines_partial [Inhabited κ] {cmp : κ → κ → Ordering} (hc : TotalPreorder cmp) (t : Tree κ ν)
+    (h : WF cmp t) (hne : t.height = 0 ∨ t.root ≠ []) (fcmp : FieldCmp κ β) (r : List (RangeField β))
+    (hok : ∀ f ∈ r, FieldOk fcmp f)
+    (hLo : Mono cmp (fun k => aboveStart fcmp k 0 r)) (hHi : Mono cmp (fun k => !belowStop fcmp k 0 r))
+    (lo hi : List Nat)
+    (hlo : seekPath (rangeStartSearch fcmp r) t.height t.root = some lo)
+    (hhi : seekPath (rangeStopSearch fcmp r) t.height t.root = some hi)
+    (hcur : CursorsConsistent t lo hi) :
+    t.iterRange fcmp r = some (t.flatten.filter (fun kv => rangeMatches fcmp kv.1 0 r)) := by
+  have hstart : rangeStartSearch fcmp r = psearch (fun k => aboveStart fcmp k 0 r) := rfl
+  have hstop : rangeStopSearch fcmp r = psearch (fun k => !belowStop fcmp k 0 r) := rfl
+  have ha := seek_ordinal_refines hc t h hne _ hLo
+  have hb := seek_ordinal_refines hc t h hne _ hHi
+  unfold Tree.seekOrdinal at ha hb
+  rw [← hstart, hlo] at ha
+  rw [← hstop, hhi] at hb
+  simp only at ha hb
+  have hwin := window_filter (pLo := fun k => aboveStart fcmp k 0 r) hHi t.flatten h.sorted
+    (fun kv => rangeMatches fcmp kv.1 0 r)
+    (fun x hx => by
+      obtain ⟨h1, h2⟩ := range_predicates_consistent fcmp x.1 r 0 hok hx
+      exact ⟨h1, by simp [h2]⟩)
+  unfold Tree.iterRange
+  rw [hlo, hhi]
+  simp only
+  unfold Tree.iterPaths
+  by_cases hcmp : cmpPath lo hi = .lt
+  · have hitem := hcur.2 hcmp
+    obtain ⟨kv, hkv⟩ := Option.isSome_iff_exists.mp hitem
+    simp only [hcmp, bne_self_eq_false, Bool.false_eq_true, if_false, hkv, ha, hb, Option.map_some]
+    congr 1
+  · have hle := hcur.1 hcmp _ _ ha hb
+    have hne' : (cmpPath lo hi != .lt) = true := by simpa using hcmp
+    simp only [hne', if_true, Option.map_some, List.filter_nil]
+    have : ¬ (rankP (fun k => aboveStart fcmp k 0 r) t.flatten < rankP (fun k => !belowStop fcmp k 0 r) t.flatten) := by
+      omega
+    simp only [this, if_false, List.filter_nil] at hwin
+    rw [← hwin]
+
+/-! ### flushing: `ApplyMutations` keeps the map a well-formed sorted dictionary -/
+
+/-- **a bulk-built map is a well-formed tree holding exactly its content** -/
+theorem build_wf {σ : Type} [Inhabited κ] {cmp : κ → κ → Ordering} (C : Cfg σ κ ν) (X : List (κ × ν)) (t : Tree κ ν)
+    (hsorted : Sorted cmp X) (hok : ∀ n, (C n).chunkOk (levelItems C n X) = true) (hb : build C X = .ok t) :
+    WF cmp t ∧ t.flatten = X := by
+  obtain ⟨hfl, hwf⟩ := Prolly.build_wf C X t hok hb
+  exact ⟨⟨hwf, by rw [hfl]; exact hsorted⟩, hfl⟩
+
+/-- **`applyMutations_wf`**: flushing a sorted edit batch into a (canonical, NoOverflowBoundary)
+map gives a well-formed tree that holds exactly `applyEdits content batch` — so every read
+refinement above (`get_refines`, `ordinal_refines`, …) applies to the flushed map again.  Same
+hypotheses and success-path form as `C12.mutate_canonical_partial`, on which it rests. -/
+theorem applyMutations_wf {σ : Type} [Inhabited κ] [BEq κ] [BEq ν] [LawfulBEq κ] [LawfulBEq ν]
+    {C : Cfg σ κ ν} {cmp : κ → κ → Ordering} {X : List (κ × ν)} {es : Edits κ ν}
+    (H : MutHyp C cmp X es) (hs : SingleOk C)
+    (hok' : ∀ n, (C n).chunkOk (levelItems C n (applyEdits cmp X es)) = true)
+    (t t1 t2 : Tree κ ν) (hb : build C X = .ok t)
+    (h1 : applyMutations C cmp t es = .ok t1) (h2 : build C (applyEdits cmp X es) = .ok t2) :
+    WF cmp t1 ∧ t1.flatten = applyEdits cmp X es := by
+  have heq := mutate_canonical_core H hs hok' t t1 t2 hb h1 h2
+  rw [heq]
+  exact build_wf C _ t2 (applyEdits_sorted H.cmp_ok es X H.sorted H.edits_sorted) hok' h2
 
 /-! ### the pending-edit list (skip.List with its checkpoint) -/
 
